@@ -382,3 +382,66 @@ Definition accepts (m : mode) (obs : list label) : nat + option nat :=
   | Some cl => accept_from closure_fuel cl obs 0
   | None => inr None
   end.
+
+(* ---- a reduced acceptor for long logs.
+   Hidden steps that are confluent with every other step are taken eagerly
+   (they only enable more, never disable anything, and their effect does not
+   depend on when they run relative to Shutdown's lock region):
+     SSpawn, SSetDlL, WSetDl (a deadline set before the lock region is
+     overwritten by it, one set after it is not set at all: same state),
+     SWaitDone, WFinish (only lower the counter / close the channel).
+   The hidden steps that read srv.started (SCheck, SErrCheck, WCheck, the lock
+   regions StAtomic and SdAtomic) stay non-deterministic.  On short logs the
+   runner evaluates both acceptors and requires them to agree. *)
+Definition eager_labels (s : state) : list label :=
+  [SSpawn; SSetDlL; SWaitDone] ++ flat_map (fun w => [WSetDl (w_id w); WFinish (w_id w)]) (workers s).
+Fixpoint first_enabled (s : state) (ls : list label) : option state :=
+  match ls with
+  | [] => None
+  | l :: t => match step s l with Some s' => Some s' | None => first_enabled s t end
+  end.
+Fixpoint normalize (fuel : nat) (s : state) : state :=
+  match fuel with
+  | O => s
+  | S f => match first_enabled s (eager_labels s) with Some s' => normalize f s' | None => s end
+  end.
+Definition norm (s : state) : state := normalize (8 + 3 * length (workers s)) s.
+
+Definition branch_labels (s : state) : list label :=
+  map (fun x => StAtomic (fst x)) (sts s) ++ [SCheck; SErrCheck] ++
+  map (fun w => WCheck (w_id w)) (workers s) ++ map (fun x => SdAtomic (fst x)) (sds s).
+
+Definition estate := (list nat * state)%type.
+Definition mk_e (s : state) : estate := let s' := norm s in (enc s', s').
+Definition mem_e (e : estate) (l : list estate) : bool := existsb (fun x => nats_eqb (fst e) (fst x)) l.
+Definition branch_succs (s : state) : list estate :=
+  flat_map (fun l => match step s l with Some s' => [mk_e s'] | None => [] end) (branch_labels s).
+
+Fixpoint closure_red (fuel : nat) (todo seen : list estate) : option (list estate) :=
+  match todo with
+  | [] => Some seen
+  | e :: t =>
+    match fuel with
+    | O => None
+    | S f =>
+      if mem_e e seen then closure_red f t seen
+      else closure_red f (branch_succs (snd e) ++ t) (e :: seen)
+    end
+  end.
+
+Fixpoint accept_red_from (fuel : nat) (cur : list estate) (obs : list label) (i : nat) : nat + option nat :=
+  match obs with
+  | [] => inr (Some (length cur))
+  | l :: t =>
+    let next := flat_map (fun e => match step (snd e) l with Some s' => [mk_e s'] | None => [] end) cur in
+    match closure_red fuel next [] with
+    | None => inr None
+    | Some [] => inl i
+    | Some cl => accept_red_from fuel cl t (S i)
+    end
+  end.
+Definition accepts_red (m : mode) (obs : list label) : nat + option nat :=
+  match closure_red closure_fuel [mk_e (init m)] [] with
+  | Some cl => accept_red_from closure_fuel cl obs 0
+  | None => inr None
+  end.
